@@ -17,7 +17,9 @@ RULE = ("requests are drawn from VERIF_SEED: tables as in C09 (3..600 knots, fou
         "zone, prefactors (+,-,tiny,huge) set by Set_Prefactor and Multiply before and between queries; a case is "
         "non-trivial when the model answers ok/err and is counted once per distinct (family, call kind, table-size "
         "class, sign class of the prefactor, span class of the limits)")
-CORR_ONLY = ["per-segment monotonicity of the Steffen cubic (needed for 'extrema are among end values and knots') is C01's "
+CORR_ONLY = ["the interior of the 1% extrapolation zone is not sampled by the extremum oracle (a turning point of the edge cubic strictly "
+             "between the end knot and an extrapolated limit is not a candidate of Local_*; second-order, accepted by the integrator)",
+             "per-segment monotonicity of the Steffen cubic (needed for 'extrema are among end values and knots') is C01's "
              "theorem; here it is a hypothesis of localExt_bounds and is sampled by the oracle"]
 ASSUMPTIONS = ["std::min_element/std::max_element/std::min/std::max return an extremal element",
                "unit factors in the generated requests are powers of two (exact in double), so model and code see the same table"]
@@ -358,7 +360,7 @@ def compare(rq, impl, model, ctx):
             out.append(fail("prop", "%s returned a non-finite value on a finite table" % kind, "call %d" % i)); nbad += 1
             continue
         d = abs(Fraction(a) - val)
-        if scale > 0:
+        if scale > 0 and d > ATOL:
             r = float(d / (EPS * scale))
             if r > ctx.get("max_ratio", 0.0):
                 ctx["max_ratio"] = r
